@@ -352,13 +352,11 @@ func c17Shapes() []c17Shape {
 			// root without a step; 127 children with a step each (ranks 1..127); below them only
 			// step-free binary half-byte nodes: every later rank-index entry equals 127.
 			ks := make([]string, 0, n)
-			m := n / 127
-			if m < 2 {
-				m = 2
-			}
-			dg := c17Digits(m, 2)
-			if dg%2 == 1 {
-				dg++
+			// complete subtrees: m = largest power of 4 with 127*m <= n (at least 4)
+			m, dg := 4, 2
+			for 127*m*4 <= n {
+				m *= 4
+				dg += 2
 			}
 			for f := 0; f < 127; f++ {
 				for j := 0; j < m; j++ {
@@ -661,29 +659,64 @@ func init() {
 					reported["boundp:"+shape.name] = true
 					c.Or.Violate("C17:size-bound", fmt.Sprintf("C17: %d keys (shape %s, prefixed with %d bytes) marshal to %d bytes > 8*n+256", nk, shape.name, pl, sizeP), rp("len(Marshal()) of P+K", size, sizeP, p, 8*nk+256))
 				}
-				if d > c17PrefixBound && !reported["delta:"+shape.name] {
-					reported["delta:"+shape.name] = true
-					// shrink over the size parameter with the same seed
-					bn, bkeys, bsize, bsizeP := n, nk, size, sizeP
-					for m := n / 2; m >= 2; m /= 2 {
-						ks := uniqSorted(shape.gen(NewRNG(seed), m))
-						s1, _, e1 := c17Size(ks)
-						s2, _, e2 := c17Size(c17Prefixed(p, ks))
-						if e1 != nil || e2 != nil {
-							break
-						}
-						dd := s2 - s1
-						if dd < 0 {
-							dd = -dd
-						}
-						if dd <= c17PrefixBound {
-							break
-						}
-						bn, bkeys, bsize, bsizeP = m, len(ks), s1, s2
+				if d > c17PrefixBound {
+					// classify: the one known mechanism is the varint carry of the r128 rank index of
+					// InnerPrefixes.PresenceBM when the root gains a step (every entry grows by one).
+					rootStep := func(t *trie.SlimTrie) bool {
+						ip := t.VerifInner().InnerPrefixes
+						return ip != nil && ip.PresenceBM != nil && len(ip.PresenceBM.Words) > 0 && ip.PresenceBM.Words[0]&1 == 1
 					}
-					r := rp("compare len(Marshal(K)) with len(Marshal(P+K)); K = shape(n_param, shape_seed) sorted and de-duplicated, P = first prefix_len bytes of randBytes(NewRNG(shape_seed^0x5bd1e995)) drawn in the order 1,100,5000,16000", bsize, bsizeP, p, c17PrefixBound)
-					r.N, r.Keys = bn, bkeys
-					c.Or.Violate("C17:prefix-delta", fmt.Sprintf("C17: prepending a %d-byte prefix to %d keys (shape %s) changes the size from %d to %d bytes (more than %d)", pl, bkeys, shape.name, bsize, bsizeP, c17PrefixBound), r)
+					rankEntries := 0
+					if ip := stP.VerifInner().InnerPrefixes; ip != nil && ip.PresenceBM != nil {
+						rankEntries = len(ip.PresenceBM.RankIndex)
+					}
+					key := "C17:prefix-delta"
+					if !rootStep(st) && rootStep(stP) && sizeP-size > 0 && sizeP-size <= c17PrefixBound+rankEntries {
+						key = "C17:prefix-delta:rank-index-varint-carry"
+					}
+					if !reported[key+shape.name] {
+						reported[key+shape.name] = true
+						classify := func(ks []string) (int, int, string, bool) {
+							s1, t1, e1 := c17Size(ks)
+							s2, t2, e2 := c17Size(c17Prefixed(p, ks))
+							if e1 != nil || e2 != nil {
+								return 0, 0, "", false
+							}
+							dd := s2 - s1
+							if dd < 0 {
+								dd = -dd
+							}
+							if dd <= c17PrefixBound {
+								return s1, s2, "", false
+							}
+							re := 0
+							if ip := t2.VerifInner().InnerPrefixes; ip != nil && ip.PresenceBM != nil {
+								re = len(ip.PresenceBM.RankIndex)
+							}
+							k := "C17:prefix-delta"
+							if !rootStep(t1) && rootStep(t2) && s2-s1 > 0 && s2-s1 <= c17PrefixBound+re {
+								k = "C17:prefix-delta:rank-index-varint-carry"
+							}
+							return s1, s2, k, true
+						}
+						// shrink over the size parameter with the same seed, keeping the same classification
+						bn, bkeys, bsize, bsizeP := n, nk, size, sizeP
+						for m := n / 2; m >= 2; m /= 2 {
+							ks := uniqSorted(shape.gen(NewRNG(seed), m))
+							s1, s2, k, bad := classify(ks)
+							if !bad || k != key {
+								break
+							}
+							bn, bkeys, bsize, bsizeP = m, len(ks), s1, s2
+						}
+						r := rp("compare len(Marshal(K)) with len(Marshal(P+K)); K = shape(n_param, shape_seed) sorted and de-duplicated, P = the prefix_len-byte prefix drawn from NewRNG(shape_seed^0x5bd1e995) in the order 1,100,5000,16000 (skipping lengths that make keys longer than 16 KiB)", bsize, bsizeP, p, c17PrefixBound)
+						r.N, r.Keys = bn, bkeys
+						what := fmt.Sprintf("C17: prepending a %d-byte prefix to %d keys (shape %s) changes the size from %d to %d bytes (more than %d)", pl, bkeys, shape.name, bsize, bsizeP, c17PrefixBound)
+						if key != "C17:prefix-delta" {
+							what += fmt.Sprintf("; the root gains a step and the excess is within the number of entries (%d at full size) of InnerPrefixes.PresenceBM.RankIndex, each of which grows by one and may cross a varint boundary", rankEntries)
+						}
+						c.Or.Violate(key, what, r)
+					}
 				}
 			}
 			if caseNo <= 3 {
@@ -705,12 +738,12 @@ func init() {
 		}
 		// 2. sizes up to the tier limit, implementation only
 		for _, sh := range shapes {
-			for _, n := range []int{4000, bigN / 2, bigN} {
+			for _, n := range c17BigNs(c.Thorough(), bigN) {
 				runCase(sh, n, false)
 			}
 		}
 		// random sizes
-		for i := 0; i < c.N(40, 400); i++ {
+		for i := 0; i < c.N(24, 400); i++ {
 			sh := shapes[c.R.Intn(len(shapes))]
 			runCase(sh, 1+c.R.Intn(bigN/4), i%4 == 0)
 		}
@@ -731,6 +764,13 @@ func init() {
 		c.Or.Extra["max_prefix_delta_observed"] = maxDelta
 		c.Or.Extra["max_prefix_delta_where"] = maxDeltaWhere
 	})
+}
+
+func c17BigNs(thorough bool, bigN int) []int {
+	if thorough {
+		return []int{4000, bigN / 4, bigN / 2, bigN}
+	}
+	return []int{bigN}
 }
 
 func bucket17(n int) string {
